@@ -192,7 +192,7 @@ OthersSame(e, written) ==
 \* mirrored call on a twin: same return value and same visible state as the original's
 MirrorFails(e, o) ==
   IF "mirror" \in DOMAIN e /\ e.mirror /\ twin[e.h].kind # "none" /\ lastev.op = e.op
-  THEN LET p == IF twin[e.h].kind = "clone" THEN "C10" ELSE "C08"
+  THEN LET p == CASE twin[e.h].kind = "clone" -> "C10" [] twin[e.h].kind = "reload" -> "C08" [] OTHER -> twin[e.h].kind
            lo == lastobs[twin[e.h].of] IN
        (IF e.ret # lastev.ret THEN {F(e, p, "mirrored call returned something else")} ELSE {})
        \cup (IF Broken(o) \/ Visible(o) # Visible(lo) THEN {F(e, p, "twin diverged after the same call")} ELSE {})
@@ -408,6 +408,21 @@ MergeEv(e) ==
      !.lastev = [op |-> e.op, ret |-> e.ret],
      !.div = (div \/ ~aliveok \/ (both /\ ~renok))]
 
+(* ------------------------- pairing two handles for side-by-side judging ------------------------- *)
+\* "pair": handle e.h is from now on judged side by side with handle e.of, differences booked under property e.kind
+\* (used for C11: a copy of the left graph receives the API calls the merge amounts to - the model's log - and must
+\* stay indistinguishable from the merged graph, also under the reads that follow).
+\* "compare": the two handles must show and hide the same state now.
+PairEv(e) == [Cur EXCEPT !.twin = [twin EXCEPT ![e.h] = [of |-> e.of, kind |-> e.kind]], !.lastev = [op |-> e.op, ret |-> "unit"]]
+CompareEv(e) ==
+  LET a == lastobs[e.h]
+      b == lastobs[twin[e.h].of] IN
+  IF void \/ twin[e.h].kind = "none" \/ a.h # e.h \/ b.h # twin[e.h].of THEN Cur
+  ELSE [Cur EXCEPT !.fails = fails \cup
+          (IF Complete(a) = Complete(b) THEN {}
+           ELSE {F(e, twin[e.h].kind, "the merged graph differs from the same graph after the API calls the merge amounts to"
+                                      \o (IF Visible(a) = Visible(b) THEN " (hidden GC state only)" ELSE ""))})]
+
 (* ------------------------- new (a second, empty graph) --------------------- *)
 NewEv(e) ==
   [Cur EXCEPT
@@ -516,6 +531,8 @@ Judge(e) ==
     [] e.op = "inspect" -> InspectEv(e)
     [] e.op = "deploy" -> DeployEv(e)
     [] e.op = "truncload" -> TruncLoadEv(e)
+    [] e.op = "pair" -> PairEv(e)
+    [] e.op = "compare" -> CompareEv(e)
 
 TNext ==
   /\ l <= Len(Rec)
